@@ -166,9 +166,9 @@ def run(ctx):
     if not gen(ctx, "informational-two-handlers", info2, "MCTwo", 2, "MCReqsInfoPair", False, codes="MCCodesInfoSmall"):
         return
     behs = os.path.join(ctx.tmp, "c17.behs")
-    n1 = share(ctx, one, behs, ctx.pick(0.04, 0.2), boost=4.0)
-    n2 = share(ctx, two, behs, ctx.pick(0.03, 0.08), boost=2.0)
-    n3 = share(ctx, info, behs, ctx.pick(0.12, 0.3), boost=2.0, need='"code":10')
+    n1 = share(ctx, one, behs, ctx.pick(0.04, 0.12), boost=4.0)
+    n2 = share(ctx, two, behs, ctx.pick(0.03, 0.06), boost=2.0)
+    n3 = share(ctx, info, behs, ctx.pick(0.12, 0.15), boost=2.0, need='"code":10')
     n2 += share(ctx, info2, behs, ctx.pick(0.05, 0.3), boost=2.0, need='"code":10')
 
     # 3. replay against the real handler, concurrently, under the race detector
